@@ -176,7 +176,12 @@ def _socket_connect(ip, s, args, kw):
     st = ip.st
     used(ip, 'socket.connect(addr): connects or raises socket.error (or anything)')
     st.ghost.setdefault('io_log', []).append(('connect', s.key, args[0]))
-    may_raise(ip, 'connect')
+    ch = st.choose(['ok', 'socket.error', 'other-exception'], 'ext:connect')
+    if ch == 'socket.error':
+        sock_state(st, s)['connect_failed'] = True
+        raise PyRaise(ExcVal(_socket.error, tag='connect'))
+    if ch == 'other-exception':
+        raise PyRaise(ExcVal(None, base=Exception, tag='connect'))
     sock_state(st, s)['connected_to'] = args[0]
 
 
